@@ -245,6 +245,12 @@ fn inner(c: &OrderCase) -> Result<CaseReport, Stop> {
                     } else {
                         None
                     };
+                    // every other connect that has to wait takes four signals (handler without SA_RESTART) during the
+                    // first 2.4 ms of the wait, which lasts 3 ms at least: each interrupts the sleeping call
+                    let intr = if full && delay_us % 2 == 1 { Some(Interrupter::start(vec![600, 1200, 1800, 2400])) } else { None };
+                    if intr.is_some() {
+                        rep.class("waiting-connect-interrupted-by-several-signals");
+                    }
                     sc::verif::log_begin();
                     let r = if tcp {
                         let addr = loopback(listener.port());
@@ -254,6 +260,7 @@ fn inner(c: &OrderCase) -> Result<CaseReport, Stop> {
                         no_panic("UnixStream::connect", || UnixStream::connect(&up)).map(|r| r.map(Tiny::U))
                     };
                     let log = sc::verif::log_end();
+                    drop(intr);
                     done.store(true, std::sync::atomic::Ordering::Release);
                     if let Some(h) = helper {
                         match h.join().expect("helper") {
